@@ -155,3 +155,186 @@ Qed.
 
 Lemma gstep_length bszs steps : forall G, length (fold_left (gstep bszs) steps G) = length G.
 Proof. induction steps as [|sp r IH]; intros G; simpl; auto. rewrite IH. unfold gstep. apply upd_length. Qed.
+
+Lemma concat_repeat_nil {X} (lens : list nat) : concat (map (fun n => repeat (@nil X) n) lens) = repeat [] (sum lens).
+Proof. induction lens as [|n r IH]; simpl; auto. rewrite IH. symmetry. apply repeat_app. Qed.
+
+Lemma count_eq_filter_snd (steps : list (nat * nat)) p :
+  count_eq (map snd steps) p = length (map fst (filter (fun sp => snd sp =? p) steps)).
+Proof.
+  unfold count_eq. rewrite map_length. induction steps as [|[a b] r IH]; simpl; auto.
+  rewrite (Nat.eqb_sym p b). destruct (b =? p); simpl; rewrite IH; reflexivity.
+Qed.
+
+(* ------------------------------------------------------------------------------------------------ *)
+(* the loop of the C++ against the independent folds                                                  *)
+Section Loop.
+Variable bszs : list (list nat).                   (* batch sizes of fold 0, of fold 1, ... *)
+Hypothesis Pos : forall p s, In s (nth p bszs []) -> 1 <= s.
+Let k := length bszs.
+Let bs := concat bszs.
+Let starts := pstarts (map (@length nat) bszs) 0.
+
+Definition region (G : list pst) (p : nat) : list (list nat) :=
+  pout (nth p G g0) ++ repeat [] (length (nth p bszs []) - length (pout (nth p G g0))).
+
+Definition conc (G : list pst) : cvloop :=
+  mkLoop (map (fun p => nth p starts 0 + pj (nth p G g0)) (seq 0 k))
+         (map (fun p => ppend (nth p G g0)) (seq 0 k))
+         (concat (map (region G) (seq 0 k))).
+
+Definition ginv (G : list pst) (rest : list (nat * nat)) : Prop :=
+  length G = k /\
+  forall q, q < k ->
+    let g := nth q G g0 in let bz := nth q bszs [] in
+    length (pout g) = pj g /\ pj g <= length bz /\
+    (pj g < length bz -> length (ppend g) < nth (pj g) bz 0) /\
+    sum (firstn (pj g) bz) + length (ppend g) + count_eq (map snd rest) q = sum bz.
+
+Lemma region_length G q : length (pout (nth q G g0)) <= length (nth q bszs []) -> length (region G q) = length (nth q bszs []).
+Proof. intros H. unfold region. rewrite app_length, repeat_length. lia. Qed.
+
+Lemma start_is_offset G p : (forall q, q < k -> length (pout (nth q G g0)) <= length (nth q bszs [])) -> p < k ->
+  nth p starts 0 = length (concat (firstn p (map (region G) (seq 0 k)))).
+Proof.
+  intros H Hp. unfold starts. rewrite nth_pstarts by (rewrite map_length; exact Hp). simpl.
+  rewrite length_concat_firstn. f_equal. f_equal. rewrite map_map.
+  rewrite <- (map_nth_seq (map (@length nat) bszs) 0) at 1. rewrite map_length. fold k. apply map_ext_in.
+  intros q Hq. apply in_seq in Hq. rewrite region_length by (apply H; lia).
+  rewrite (nth_indep _ 0 (length (@nil nat))) by (rewrite map_length; fold k; lia). apply map_nth.
+Qed.
+
+Lemma nth_sum_firstn_lt (bz : list nat) j : (forall s, In s bz -> 1 <= s) -> j <= length bz ->
+  forall c, sum (firstn j bz) + c < sum bz -> (j < length bz -> c < nth j bz 0 \/ True) -> j < length bz.
+Proof.
+  intros P Hj c H _. destruct (Nat.lt_ge_cases j (length bz)); auto. rewrite firstn_all2 in H by auto. lia.
+Qed.
+
+(* one pass through the loop body = one step of the fold it names *)
+Lemma cv_step_conc G rest src p :
+  ginv G ((src, p) :: rest) -> p < k ->
+  cv_step bs (conc G) (src, p) = conc (gstep bszs G (src, p)) /\ ginv (gstep bszs G (src, p)) rest.
+Proof.
+  intros [LG I] Hp. pose proof (I p Hp) as Ip. cbv zeta in Ip. destruct Ip as (I1 & I2 & I3 & I4).
+  set (g := nth p G g0) in *. set (bz := nth p bszs []) in *.
+  assert (Hout : forall q, q < k -> length (pout (nth q G g0)) <= length (nth q bszs [])).
+  { intros q Hq. destruct (I q Hq) as (A1 & A2 & _). lia. }
+  simpl map in I4. rewrite count_eq_cons, Nat.eqb_refl in I4.
+  assert (Jlt : pj g < length bz).
+  { destruct (Nat.lt_ge_cases (pj g) (length bz)); auto. rewrite firstn_all2 in I4 by auto. lia. }
+  specialize (I3 Jlt).
+  (* what the loop body reads *)
+  assert (Rb : nth p (belems (conc G)) [] = ppend g) by (unfold conc; cbn [belems]; exact (nth_map_seq (fun q => ppend (nth q G g0)) k p [] Hp)).
+  assert (Rv : nth p (vstart (conc G)) 0 = nth p starts 0 + pj g) by (unfold conc; cbn [vstart]; exact (nth_map_seq (fun q => nth q starts 0 + pj (nth q G g0)) k p 0 Hp)).
+  assert (Rs : nth (nth p starts 0 + pj g) bs 0 = nth (pj g) bz 0).
+  { unfold bs. assert (nth p starts 0 = length (concat (firstn p bszs))) as ->.
+    { unfold starts. rewrite nth_pstarts by (rewrite map_length; exact Hp). simpl. symmetry. apply length_concat_firstn. }
+    apply nth_concat; auto. }
+  unfold cv_step. rewrite Rb, Rv, Rs. unfold gstep. cbn [fst snd]. fold g. fold bz. unfold fstep.
+  destruct (length (ppend g ++ [src]) =? nth (pj g) bz 0) eqn:Full.
+  - (* the batch is complete *)
+    set (g' := (S (pj g), @nil nat, pout g ++ [ppend g ++ [src]])).
+    assert (Ng : forall q, nth q (upd p g' G) g0 = if q =? p then g' else nth q G g0).
+    { intros q. rewrite nth_upd. destruct (Nat.eqb_spec p q) as [->|N].
+      - rewrite Nat.eqb_refl. rewrite LG. apply Nat.ltb_lt in Hp. rewrite Hp. reflexivity.
+      - destruct (Nat.eqb_spec q p); [congruence|reflexivity]. }
+    split.
+    + unfold conc. f_equal.
+      * cbn [vstart]. rewrite upd_map_seq. apply map_ext. intros q. rewrite Ng. destruct (q =? p) eqn:Eq.
+        -- apply Nat.eqb_eq in Eq. subst q. unfold g', pj. simpl. lia.
+        -- reflexivity.
+      * cbn [belems]. rewrite upd_map_seq. apply map_ext. intros q. rewrite Ng. destruct (q =? p); reflexivity.
+      * cbn [newset]. rewrite (start_is_offset G p Hout Hp).
+        assert (Lr : nth p (map (region G) (seq 0 k)) [] = region G p) by (exact (nth_map_seq (region G) k p [] Hp)).
+        rewrite upd_concat; [|rewrite map_length, seq_length; exact Hp|rewrite Lr, region_length by (apply Hout; exact Hp); exact Jlt].
+        f_equal. rewrite Lr, upd_map_seq. apply map_ext. intros q. unfold region at 2 3. rewrite Ng.
+        destruct (Nat.eqb_spec q p) as [->|N]; [|reflexivity].
+        unfold region. fold g. fold bz. unfold g', pout. cbn [snd]. rewrite <- I1 at 1.
+        rewrite upd_app_pad by (unfold pout in I1; lia). rewrite app_length. simpl length.
+        replace (length bz - (length (snd g) + 1)) with (length bz - length (snd g) - 1) by lia. reflexivity.
+    + split; [rewrite upd_length; exact LG|]. intros q Hq. cbv zeta. rewrite Ng.
+      destruct (Nat.eqb_spec q p) as [->|N].
+      * fold bz. unfold g', pj, ppend, pout. cbn [fst snd]. apply Nat.eqb_eq in Full. rewrite app_length in *. simpl length in *.
+        split; [unfold pout in I1; lia|]. split; [lia|]. split.
+        -- intros H. assert (In (nth (S (fst (fst g))) bz 0) bz) by (apply nth_In; exact H). specialize (Pos p _ H0). lia.
+        -- rewrite sum_firstn_S. unfold pj, ppend in *. lia.
+      * destruct (I q Hq) as (A1 & A2 & A3 & A4). simpl map in A4. rewrite count_eq_cons in A4.
+        destruct (Nat.eqb_spec q p); [congruence|]. repeat split; auto.
+  - (* still filling *)
+    set (g' := (pj g, ppend g ++ [src], pout g)).
+    assert (Ng : forall q, nth q (upd p g' G) g0 = if q =? p then g' else nth q G g0).
+    { intros q. rewrite nth_upd. destruct (Nat.eqb_spec p q) as [->|N].
+      - rewrite Nat.eqb_refl. rewrite LG. apply Nat.ltb_lt in Hp. rewrite Hp. reflexivity.
+      - destruct (Nat.eqb_spec q p); [congruence|reflexivity]. }
+    split.
+    + unfold conc. f_equal.
+      * cbn [vstart]. apply map_ext. intros q. rewrite Ng. destruct (Nat.eqb_spec q p) as [->|]; reflexivity.
+      * cbn [belems]. rewrite upd_map_seq. apply map_ext. intros q. rewrite Ng. destruct (q =? p); reflexivity.
+      * cbn [newset]. f_equal. apply map_ext. intros q. unfold region. rewrite Ng. destruct (Nat.eqb_spec q p) as [->|]; reflexivity.
+    + split; [rewrite upd_length; exact LG|]. intros q Hq. cbv zeta. rewrite Ng.
+      destruct (Nat.eqb_spec q p) as [->|N].
+      * fold bz. unfold g', pj, ppend, pout. cbn [fst snd]. apply Nat.eqb_neq in Full. rewrite app_length in *. simpl length in *.
+        unfold pj, ppend, pout in *. repeat split; try lia. 
+      * destruct (I q Hq) as (A1 & A2 & A3 & A4). simpl map in A4. rewrite count_eq_cons in A4.
+        destruct (Nat.eqb_spec q p); [congruence|]. repeat split; auto.
+Qed.
+
+Lemma cv_loop_conc rest : forall G, ginv G rest -> (forall sp, In sp rest -> snd sp < k) ->
+  fold_left (cv_step bs) rest (conc G) = conc (fold_left (gstep bszs) rest G).
+Proof.
+  induction rest as [|[src p] r IH]; intros G I B; simpl; auto.
+  destruct (cv_step_conc G r src p I (B (src, p) (or_introl eq_refl))) as [E I'].
+  rewrite E. apply IH; auto. intros sp Hs. apply B. right. exact Hs.
+Qed.
+
+(* the whole loop: the new set holds, fold after fold, the source positions named for the fold, in the order of the steps,
+   cut into the fold's batches *)
+Theorem cv_loop_newset steps :
+  (forall sp, In sp steps -> snd sp < k) ->
+  (forall p, p < k -> count_eq (map snd steps) p = sum (nth p bszs [])) ->
+  newset (cv_loop bs starts k steps) =
+  chunk bs (flat_map (fun p => map fst (filter (fun sp => snd sp =? p) steps)) (seq 0 k)).
+Proof.
+  intros B C. unfold cv_loop.
+  set (G0 := repeat g0 k).
+  assert (N0 : forall q, nth q G0 g0 = g0) by (intros q; unfold G0; apply nth_repeat).
+  assert (E0 : mkLoop starts (repeat [] k) (repeat [] (length bs)) = conc G0).
+  { unfold conc. f_equal.
+    - rewrite <- (map_nth_seq starts 0) at 1. assert (length starts = k) as ->.
+      { unfold starts. clear. generalize 0. induction bszs as [|b t IH]; intros s; simpl; auto. }
+      apply map_ext. intros q. rewrite N0. unfold pj, g0. simpl. lia.
+    - clear - N0. induction (seq 0 k) as [|q t IH]; simpl; auto. f_equal. rewrite N0. reflexivity.
+    - unfold bs. rewrite length_concat_sum. rewrite <- concat_repeat_nil. f_equal.
+      rewrite <- (map_nth_seq (map (@length nat) bszs) 0), map_length, map_map. fold k. apply map_ext_in.
+      intros q Hq. apply in_seq in Hq. unfold region. rewrite N0. unfold pout, g0. simpl. rewrite Nat.sub_0_r. f_equal.
+      rewrite (nth_indep _ 0 (length (@nil nat))) by (rewrite map_length; fold k; lia). apply map_nth. }
+  rewrite E0. rewrite cv_loop_conc; auto.
+  - (* all folds complete *)
+    set (Gf := fold_left (gstep bszs) steps G0).
+    assert (F : forall p, p < k -> nth p Gf g0 =
+              (length (nth p bszs []), [], chunk (nth p bszs []) (map fst (filter (fun sp => snd sp =? p) steps)))).
+    { intros p Hp. unfold Gf. rewrite gstep_project by (unfold G0; rewrite repeat_length; exact Hp). rewrite N0.
+      unfold g0. rewrite (fill_chunk (nth p bszs []) (Pos p)); simpl; auto; try lia.
+      rewrite <- count_eq_filter_snd. apply C. exact Hp. }
+    unfold conc. cbn [newset].
+    rewrite (map_ext_in (region Gf) (fun p => chunk (nth p bszs []) (map fst (filter (fun sp => snd sp =? p) steps)))).
+    + rewrite (map_ext_in _ (fun p => (fun bl => chunk (fst bl) (snd bl)) (nth p bszs [], map fst (filter (fun sp => snd sp =? p) steps))))
+        by reflexivity.
+      rewrite <- (map_map (fun p => (nth p bszs [], map fst (filter (fun sp => snd sp =? p) steps))) (fun bl => chunk (fst bl) (snd bl))).
+      rewrite chunk_concat_pairs.
+      * rewrite !map_map. cbn [fst snd]. unfold bs. f_equal.
+        -- f_equal. apply (map_nth_seq bszs []).
+        -- rewrite flat_map_concat_map. reflexivity.
+      * intros bl Hb. apply in_map_iff in Hb. destruct Hb as [p [<- Hp]]. apply in_seq in Hp. cbn [fst snd].
+        rewrite <- count_eq_filter_snd. symmetry. apply C. lia.
+    + intros p Hp. apply in_seq in Hp. unfold region. rewrite F by lia. unfold pout. cbn [snd].
+      rewrite chunk_length, Nat.sub_diag. apply app_nil_r.
+  - (* the invariant holds at the start *)
+    split; [unfold G0; apply repeat_length|]. intros q Hq. cbv zeta. rewrite N0. unfold g0, pj, ppend, pout. simpl.
+    repeat split; try lia.
+    + intros H. destruct (nth q bszs []) as [|s t] eqn:E; simpl in *; [lia|].
+      assert (In s (nth q bszs [])) by (rewrite E; left; reflexivity). specialize (Pos q s H0). lia.
+    + apply C. exact Hq.
+Qed.
+
+End Loop.
